@@ -88,6 +88,23 @@ class BuildError(Exception):
     pass
 
 
+class HookedBuildError(BuildError):
+    """a translation unit of the repository compiles as the project itself builds it (guard off) but not with
+    -DINOVESA_INOVESA_VERIF: a guarded hook no longer fits the code around it"""
+
+
+class HarnessBuildError(BuildError):
+    """every translation unit of the repository compiles (with and without the guard) but a harness program of the
+    framework does not: the harness reaches into something (a private member, a signature) that has changed"""
+
+
+def _compiles_unhooked(src, flags, incs):
+    """does this repository source compile with the guard off (nothing cached, no object kept)?"""
+    defs = [d for d in BASE_DEFS if d != "-D" + GUARD]
+    r = subprocess.run(["g++"] + flags + defs + incs + ["-fsyntax-only", src], capture_output=True, text=True)
+    return r.returncode == 0
+
+
 def _compile(src, flags, incs, hh, extra_key=""):
     key = sha(" ".join(flags), " ".join(incs), hh, read(src), extra_key)
     objdir = os.path.join(CACHE, "obj")
@@ -140,8 +157,28 @@ def build(flavour="std", harness=("impl_kick",), want_binary=True, log=None):
             futs = {s: ex.submit(_compile, s, flags, incs, hh) for s in srcs}
             hf = {h: ex.submit(_compile, hsrcs[h], flags, incs + ["-I" + os.path.join(VERIF, "harness")], hh,
                                sha(common)) for h in harness}
-            objs = {s: f.result() for s, f in futs.items()}
-            hobjs = {h: f.result() for h, f in hf.items()}
+            objs, hobjs, rfail, hfail = {}, {}, {}, {}
+            for s, f in futs.items():
+                try:
+                    objs[s] = f.result()
+                except BuildError as e:
+                    rfail[s] = e
+            for h, f in hf.items():
+                try:
+                    hobjs[h] = f.result()
+                except BuildError as e:
+                    hfail[h] = e
+        if rfail:
+            # which kind of failure: the repository itself, or only its hooked (guarded) form
+            src, err = sorted(rfail.items())[0]
+            if all(_compiles_unhooked(x, flags, incs) for x in rfail):
+                raise HookedBuildError("hooked build fails but unhooked build succeeds (%s compile(s) with -D%s off, not with it on): %s"
+                                       % (", ".join(os.path.relpath(x, REPO) for x in sorted(rfail)), GUARD, err))
+            raise BuildError("the repository does not build (also with the guard off): %s" % err)
+        if hfail:
+            h, err = sorted(hfail.items())[0]
+            raise HarnessBuildError("harness build fails but the repository's own sources build, hooked and unhooked (%s does not compile against "
+                                    "the current headers): %s" % (", ".join("harness/%s.cpp" % x for x in sorted(hfail)), err))
         lib = [o for s, o in objs.items() if not s.endswith("/main.cpp")]
         mainobj = [o for s, o in objs.items() if s.endswith("/main.cpp")]
         for name, tgt in targets.items():
